@@ -298,7 +298,7 @@ func cmdConcStress(args []string) int {
 	seen := map[string]bool{}
 	for k := 0; k < *policies; k++ {
 		var recipe Recipe
-		switch k % 4 {
+		switch k % 5 {
 		case 0:
 			recipe = Recipe{{M: "UGCPolicy"}, {M: "AllowStyles", Props: []string{"color", "font-size"}, Scope: "glob"}, {M: "AllowDataURIImages"}}
 		case 1:
@@ -307,6 +307,13 @@ func cmdConcStress(args []string) int {
 				{M: "AllowStyles", Props: []string{"color"}, Scope: "pat", Pat: "^custom-", Enum: "e:red|blue"},
 				{M: "AllowStyles", Props: []string{"color"}, Scope: "pat", Pat: "-x$", Re: "r:^green$"},
 				{M: "RewriteSrc", Fid: "f:" + FuncName(RewriteProxy)}, {M: "AllowStandardURLs"}, {M: "AllowAttrs", Attrs: []string{"src"}, Scope: "els", Els: []string{"img"}}}
+		case 2:
+			// three global rules for one attribute plus element rules for it on two elements
+			recipe = Recipe{{M: "NewPolicy"}, {M: "AllowAttrs", Attrs: []string{"class"}, Scope: "glob", Match: "re:^a+$"},
+				{M: "AllowAttrs", Attrs: []string{"class"}, Scope: "glob", Match: "re:^b+$"}, {M: "AllowAttrs", Attrs: []string{"class"}, Scope: "glob", Match: "re:^c+$"},
+				{M: "AllowAttrs", Attrs: []string{"class"}, Scope: "els", Els: []string{"p"}, Match: "re:^p+$"},
+				{M: "AllowAttrs", Attrs: []string{"class"}, Scope: "els", Els: []string{"span"}, Match: "re:^s+$"},
+				{M: "AllowElements", Names: []string{"p", "span", "b"}}}
 		default:
 			recipe = GenRecipe(rng, GenOpts{NoUnsafe: true})
 			if recipe[0].M == "ZeroValue" {
@@ -317,7 +324,8 @@ func cmdConcStress(args []string) int {
 			recipe[i].norm()
 		}
 		model, real, twin := BuildAP(recipe), BuildReal(recipe), BuildReal(recipe)
-		inputs := [][]byte{}
+		inputs := [][]byte{[]byte(`<p class="pp">1</p><span class="ss">2</span><p class="ss">3</p><span class="pp">4</span><b class="aa">5</b>`),
+			[]byte(`<span class="pp">x</span><p class="ss">y</p><p class="bb">z</p>`)}
 		for i := 0; i < *inputsN; i++ {
 			_, b := GenDoc(rng, model, []int{0, 1, 3, 4, 6, 8}[rng.Intn(6)])
 			inputs = append(inputs, b)
@@ -342,7 +350,10 @@ func cmdConcStress(args []string) int {
 						case 0:
 							got = real.Sanitize(string(inputs[j]))
 						case 1:
-							got = string(real.SanitizeBytes(append([]byte{}, inputs[j]...)))
+							// the returned slice is held while another call runs, then read
+							held := real.SanitizeBytes(append([]byte{}, inputs[j]...))
+							real.SanitizeBytes(inputs[(j+1)%len(inputs)])
+							got = string(held)
 						default:
 							got = real.SanitizeReader(bytes.NewReader(inputs[j])).String()
 						}
